@@ -24,8 +24,12 @@ if VERIF not in sys.path:
 import logging
 import warnings
 
-warnings.simplefilter("ignore")
 HOSTILE = bool(os.environ.get("VERIF_HOSTILE"))
+if HOSTILE:
+    # warnings are errors in this pass (the interpreter was also started with -W error)
+    warnings.simplefilter("error")
+else:
+    warnings.simplefilter("ignore")
 if HOSTILE:
     # second pass ("hostile environment", see run_check.hostile_pass): every logger enabled down to DEBUG with a handler that formats
     # each record (so that arguments of debug lines are evaluated) and throws the text away
